@@ -98,6 +98,14 @@ func TestCheck(t *testing.T) {
 			for _, k := range []int{0, 3, 5, 100, -1} {
 				cases = append(cases, faults.Case{Kind: "stall", Proto: "h1", K: k}, faults.Case{Kind: "stall", Proto: "h2", K: k})
 			}
+			for k := 0; k < 6; k++ {
+				for _, n := range []int{300, 10050} {
+					if !ev.Thorough() && n > 300 && k > 1 {
+						continue
+					}
+					cases = append(cases, faults.Case{Kind: "h2-flood", Proto: "h2", K: k, Val: n})
+				}
+			}
 			for _, proto := range []string{"h1", "h2"} {
 				for _, k := range []int{0} { // no fake time may pass while the proxy is blocked writing: the ReverseProxy flush timer goroutine would then wait for a mutex held by the blocked writer, which testing/synctest never sees as durable (the clock stops)
 					for v := 0; v < 3; v++ {
